@@ -545,6 +545,55 @@ func (x *Exec) Do(op Op) (f *Fail) {
 		return x.boundary("reopen")
 	}
 
+	switch op.K {
+	case "rput", "rdel", "rmkb", "rdelb", "rseq":
+		// write attempts through a read transaction: documented ErrTxNotWritable, nothing changes
+		r := x.Readers[op.N]
+		if r == nil {
+			return mm("harness: reader %d not open", op.N)
+		}
+		var err error
+		b := x.resolve(r.Tx, op.P)
+		switch {
+		case op.K == "rmkb":
+			_, err = r.Tx.CreateBucket(x.KeyBytes(op.Key))
+		case op.K == "rdelb":
+			err = r.Tx.DeleteBucket(x.KeyBytes(op.Key))
+		case b == nil:
+			return nil
+		case op.K == "rput":
+			err = b.Put(x.KeyBytes(op.Key), []byte("v"))
+		case op.K == "rdel":
+			err = b.Delete(x.KeyBytes(op.Key))
+		case op.K == "rseq":
+			_, err = b.NextSequence()
+		}
+		if ErrName(err) != "ErrTxNotWritable" {
+			return mm("%s through a read transaction returned %q, want ErrTxNotWritable", op.K, ErrName(err))
+		}
+		return x.checkReader(op.N)
+	case "deadput", "deadmkb", "deadcommit", "deadrollback":
+		// operations on the most recently closed write transaction: documented ErrTxClosed
+		if x.Dead == nil {
+			return nil
+		}
+		var err error
+		switch op.K {
+		case "deadmkb":
+			_, err = x.Dead.CreateBucket([]byte("zz"))
+		case "deadcommit":
+			err = x.Dead.Commit()
+		case "deadrollback":
+			err = x.Dead.Rollback()
+		case "deadput":
+			_, err = x.Dead.CreateBucketIfNotExists([]byte("zz"))
+		}
+		if ErrName(err) != "ErrTxClosed" {
+			return mm("%s on a closed transaction returned %q, want ErrTxClosed", op.K, ErrName(err))
+		}
+		return nil
+	}
+
 	// ---- operations inside the write transaction ----
 	if x.W == nil {
 		return mm("harness: op %s needs a write tx", op.K)
@@ -593,6 +642,32 @@ func (x *Exec) Do(op Op) (f *Fail) {
 		_, existed := mb.Ent[skey]
 		merr := mb.Delete(skey)
 		if merr == nil && existed {
+			x.WDirty[mb] = true
+		}
+		if f := cmpErr(err, merr); f != nil {
+			return f
+		}
+	case "cdel":
+		// Cursor.Seek + Cursor.Delete: deletes the smallest key >= Key if it is a plain key
+		if rb == nil {
+			return mm("harness: cdel at root")
+		}
+		c := rb.Cursor()
+		k, _ := c.Seek(key)
+		mc := mb.Cursor()
+		mk, me, ok := mc.Seek(skey)
+		if (k == nil) == ok || (ok && string(k) != mk) {
+			return mm("Cursor.Seek(%q) landed on %q, model on %q (found=%v)", short(key), short(k), mk, ok)
+		}
+		if !ok {
+			return nil
+		}
+		err := c.Delete()
+		var merr error
+		if me.Sub != nil {
+			merr = refmodel.ErrIncompatibleValue
+		} else {
+			_ = mb.Delete(mk)
 			x.WDirty[mb] = true
 		}
 		if f := cmpErr(err, merr); f != nil {
@@ -742,6 +817,25 @@ func (x *Exec) Do(op Op) (f *Fail) {
 			}
 		}
 		x.WDirty[mb] = true
+	case "thin":
+		// delete every plain key whose ordinal is not a multiple of N: all leaves become under-full but stay non-empty
+		if rb == nil {
+			return mm("harness: thin at root")
+		}
+		i := 0
+		for _, k := range mb.Keys() {
+			if mb.Ent[k].Sub != nil {
+				continue
+			}
+			if i%op.N != 0 {
+				if err := rb.Delete([]byte(k)); err != nil {
+					return mm("Delete during thin: %v", err)
+				}
+				_ = mb.Delete(k)
+				x.WDirty[mb] = true
+			}
+			i++
+		}
 	case "drain":
 		if rb == nil {
 			return mm("harness: drain at root")
